@@ -124,6 +124,8 @@ def make_harness(variant, nb, hermitian, canary=False):
             eng.oblige("mask:eliminate-is-the-user-mask", (ev == 1) == _mask(masked_block, a, c))
         eng.oblige("mask:eliminated-implies-solver-divides", z3.Implies(ev == 1, z3.Not(close)),
                    detail="an element selected for elimination has |E_a - E_c| > atol, so solve_sylvester_diagonal divides there (C20)")
+        eng.oblige("mask:diagonal-entries-kept", z3.Implies(a == c, kv == 1),
+                       detail="a diagonal entry is never selected for elimination (hypothesis cls_diag of the Lean matrix model)")
         (eng.oblige_nra if variant == "tuple" else eng.oblige)("mask:symmetric-in-hermitian-mode", z3.Implies(herm, kv == as_int(kk.elem([c, a]))),
                        detail="the kept pattern is symmetric (required by T-adj); asymmetric user masks raise ValueError in Hermitian mode")
         # commuting flag
